@@ -43,6 +43,9 @@ class Spec:
                    "watched paths are created (as plain files or, 30%, as directories) and removed between commands"]
     checks = {"execset", "calls", "once", "content"}
 
+    def accepts(self, case):
+        return "ops" in case
+
     def cases(self, tier):
         return 1600 if tier == "quick" else 16000
 
@@ -60,3 +63,16 @@ class Spec:
 
 
 SPEC = Spec()
+
+
+def spec_for(case):
+    from . import c14s
+    return c14s.SPEC if "invs" in case else SPEC
+
+
+def run_check(tier, seed):
+    from .. import engine
+    code_h, ev_h = engine.run_property("rv.props.c14", tier, seed)
+    code_s, ev_s = engine.run_property("rv.props.c14s", tier, seed)
+    ev = engine.merge_evidence(ev_h, ev_s, "serial histories", "parallel scheduled scenarios")
+    return (1 if 1 in (code_h, code_s) else max(code_h, code_s)), ev
